@@ -39,7 +39,14 @@
 
 mod est;
 mod hist;
+#[cfg(feature = "rayon")]
 mod probe;
+/// Stand-in so that signatures mentioning `serde_json::Value` still type-check when the driver is built without serde
+/// (the crate's non-serde `define_moments!` / `define_histogram!` variants); never constructed.
+#[cfg(not(feature = "serde"))]
+mod serde_json {
+    pub enum Value {}
+}
 mod types;
 
 use std::fmt::Write as _;
@@ -498,13 +505,21 @@ fn dispatch(ty: &str, params: &[&str], ops: &[Vec<&str>], out: &mut String) -> b
         "CatVarQ" => e!(est::WCatVarQ),
         "Cat5" => e!(est::WCat5),
         "CatSk3" => e!(est::WCatSk3),
+        #[cfg(feature = "rayon")]
         "ProbeMean" => e!(probe::ProbeMean),
+        #[cfg(feature = "rayon")]
         "ProbeVariance" => e!(probe::ProbeVariance),
+        #[cfg(feature = "rayon")]
         "ProbeSkewness" => e!(probe::ProbeSkewness),
+        #[cfg(feature = "rayon")]
         "ProbeKurtosis" => e!(probe::ProbeKurtosis),
+        #[cfg(feature = "rayon")]
         "ProbeMin" => e!(probe::ProbeMin),
+        #[cfg(feature = "rayon")]
         "ProbeMax" => e!(probe::ProbeMax),
+        #[cfg(feature = "rayon")]
         "ProbeMoments4" => e!(probe::ProbeMoments4),
+        #[cfg(feature = "rayon")]
         "ProbeM6" => e!(probe::ProbeM6),
         "H1" => h!(H1),
         "H2" => h!(H2),
@@ -568,12 +583,13 @@ fn main() {
     let args: Vec<String> = std::env::args().collect();
     if args.len() > 1 && args[1] == "--version-info" {
         println!(
-            "avdrive debug_assertions={} features: libm={} std={} rayon={} nightly={}",
+            "avdrive debug_assertions={} features: libm={} std={} rayon={} nightly={} serde={}",
             cfg!(debug_assertions),
             cfg!(feature = "libm"),
             cfg!(feature = "std"),
             cfg!(feature = "rayon"),
-            cfg!(feature = "nightly")
+            cfg!(feature = "nightly"),
+            cfg!(feature = "serde")
         );
         return;
     }
